@@ -88,8 +88,8 @@ def plan(tier, seed):
                  'out': (30000, 3)}
         secs = 35
     else:
-        sizes = {'gen': (2000000, 9), 'op': (600000, 3), 'meth': (300000, 2),
-                 'out': (500000, 2)}
+        sizes = {'gen': (5000000, 9), 'op': (1500000, 3), 'meth': (800000, 2),
+                 'out': (1200000, 2)}
         secs = 540
     shards = []
     for kind, (total, parts) in sizes.items():
